@@ -223,6 +223,11 @@ func (sc *sortCtx) structSort(t types.Type, u *types.Struct) string {
 	}
 	sc.structName[u] = name
 	sc.structs[name] = u
+	for i := 0; i < u.NumFields(); i++ {
+		if f := u.Field(i); f.Name() == "_" {
+			blankNames[f] = fmt.Sprintf("blank%d", i)
+		}
+	}
 	// declare dependencies first
 	for i := 0; i < u.NumFields(); i++ {
 		sc.sortOf(u.Field(i).Type())
@@ -231,7 +236,13 @@ func (sc *sortCtx) structSort(t types.Type, u *types.Struct) string {
 	return name
 }
 
+// blankNames: blank fields are named by their index in the struct (a token.Pos would differ from run to run)
+var blankNames = map[*types.Var]string{}
+
 func fieldName(f *types.Var) string {
+	if n, ok := blankNames[f]; ok {
+		return n
+	}
 	if f.Name() == "_" {
 		// blank fields may repeat inside one struct: name them by position
 		return fmt.Sprintf("blank%d", int(f.Pos()))
